@@ -1,5 +1,5 @@
 """C04 — parsing is total; index/err discipline; the grammar as outcome tables of the three field parsers and the driver."""
-from ..rules import parser, data, normal, casts, summary
+from ..rules import parser, data, normal, casts, summary, features
 
 EXPL = ("Decides: (1) SA-PANIC totality: every panic edge in the call-graph closure of the six generic parse entry points "
         "(from_bytes, from_bytes_with_last_index, from_str for plain and dual types) in release-like configurations is discharged "
@@ -22,7 +22,7 @@ EXPL = ("Decides: (1) SA-PANIC totality: every panic edge in the call-graph clos
 
 
 def run(ctx):
-    cfgs = ["rel", "strict"] if ctx.tier == "quick" else ["rel", "strict", "dbg", "unsafe", "nodef", "unchecked"]
+    cfgs = ["rel", "strict", "unsafe"] if ctx.tier == "quick" else ["rel", "strict", "dbg", "unsafe", "nodef", "unchecked"]
     ctx.progs(cfgs)  # build all configurations in parallel
     for c in cfgs:
         prog = ctx.prog(c)
@@ -40,5 +40,9 @@ def run(ctx):
         ctx.guard("C04", "runlimit", lambda: normal.run_limit_agreement(ctx, prog))
         ctx.guard("C04", "tables", lambda: data.base64_tables(ctx, prog))
         ctx.guard("C04", "summaries", lambda: summary.check(ctx, prog, 'parser_state::|ParseErrorEither|::from_bytes|::from_str', floor=4))
+        if c == "unsafe":
+            # every belief (invariant!) on the parse path is backed by a run-time check of the safe build: an unbacked one (say, a bound
+            # on how much text a normalising parser may consume) panics in debug builds and is undefined behaviour under `unsafe`
+            ctx.guard("C04", "invpair", lambda: features.invpair(ctx, prog, scope=r"hash::algorithms::parse_|::from_bytes|::from_str|hash_dual::algorithms::(compress_block_hash_with_rle|update_rle_block)", floors=(6, 4)))
         ctx.guard("C04", "casts", lambda: casts.census(ctx, prog, scope='hash::algorithms::parse_|::from_bytes|::from_str|hash_dual::algorithms::(compress_block_hash_with_rle|update_rle_block)', floor=2))
     return ctx.finish(EXPL, ["overflow checks of debug builds are not part of the verdict (release-like configurations decide)", "core slice/iterator APIs panic only as documented", "residue entries are reviewed by hand; each states its reason"])
